@@ -151,6 +151,18 @@ fn verify_match_rule(
     consumed
 }
 
+/// Digests of the given artifacts, keyed by canonicalized path.
+fn digests_by_path(
+    artifacts: &BTreeMap<VirtualTargetPath, TargetDescription>,
+) -> BTreeMap<VirtualTargetPath, &TargetDescription> {
+    artifacts
+        .iter()
+        .filter_map(|(path, value)| {
+            canonicalize_path(path).map(|path| (path, value))
+        })
+        .collect()
+}
+
 /// Apply rules of the given [`SupplyChainItem`] onto the [`LinkMetadata`]
 pub(crate) fn apply_rules_on_link(
     item: &Box<dyn SupplyChainItem>,
@@ -187,11 +199,15 @@ pub(crate) fn apply_rules_on_link(
         product_paths.difference(&material_paths).cloned().collect();
     let deleted: BTreeSet<_> =
         material_paths.difference(&product_paths).cloned().collect();
+    // digests by canonicalized path: the paths recorded in the link are not
+    // necessarily canonical, so the link's own maps cannot be indexed by them
+    let material_digests = digests_by_path(&src_link.materials);
+    let product_digests = digests_by_path(&src_link.products);
     let modified: BTreeSet<_> = material_paths
         .intersection(&product_paths)
         .cloned()
         .filter_map(|name| {
-            if src_link.materials[&name] != src_link.products[&name] {
+            if material_digests.get(&name) != product_digests.get(&name) {
                 Some(name)
             } else {
                 None
